@@ -240,6 +240,10 @@ class _N(ast.NodeTransformer):
 
     def visit_ListComp(self, n):
         self.generic_visit(n)
+        # [v for v in IT]  ->  list(IT)
+        if len(n.generators) == 1 and not n.generators[0].ifs and isinstance(n.elt, ast.Name) and isinstance(n.generators[0].target, ast.Name) \
+                and n.elt.id == n.generators[0].target.id and not n.generators[0].is_async:
+            return ast.copy_location(ast.Call(func=ast.Name(id="list", ctx=ast.Load()), args=[n.generators[0].iter], keywords=[]), n)
         return _distribute(n)
 
     def visit_Assign(self, n):
@@ -657,6 +661,13 @@ def normalize_loops(fn):
                     changed = True
                     k += 2
                     continue
+            # x = []; for T in IT: [if c:] x.append(E)   ->   x = [E for T in IT if c]
+            comp = _loop_as_comprehension(s0, s1, fn)
+            if comp is not None:
+                out.append(comp)
+                changed = True
+                k += 2
+                continue
             out.append(s0)
             k += 1
         for s_ in out:
@@ -673,6 +684,39 @@ def normalize_loops(fn):
     if changed:
         ast.fix_missing_locations(fn)
     return changed
+
+
+def _loop_as_comprehension(s0, s1, fn):
+    """`x = []` directly followed by `for T in IT: [if c: ...] x.append(E)` is the list comprehension `x = [E for T in IT if c]` when x is read by neither
+    E, IT nor c and the loop variables are used nowhere else in the function (the comprehension does not leak them)."""
+    if not (isinstance(s0, ast.Assign) and len(s0.targets) == 1 and isinstance(s0.targets[0], ast.Name) and isinstance(s0.value, ast.List) and not s0.value.elts):
+        return None
+    if not (isinstance(s1, ast.For) and not s1.orelse and len(s1.body) == 1):
+        return None
+    x = s0.targets[0].id
+    ifs = []
+    b = s1.body[0]
+    while isinstance(b, ast.If) and not b.orelse and len(b.body) == 1:
+        ifs.append(b.test)
+        b = b.body[0]
+    if not (isinstance(b, ast.Expr) and isinstance(b.value, ast.Call) and isinstance(b.value.func, ast.Attribute) and b.value.func.attr == "append"
+            and isinstance(b.value.func.value, ast.Name) and b.value.func.value.id == x and len(b.value.args) == 1 and not b.value.keywords):
+        return None
+    E = b.value.args[0]
+    tv = {n.id for n in ast.walk(s1.target) if isinstance(n, ast.Name)}
+    if not tv or any(not isinstance(n, (ast.Name, ast.Tuple, ast.List, ast.Store, ast.Load, ast.Starred)) for n in ast.walk(s1.target)):
+        return None
+    reads = [E, s1.iter] + ifs
+    if any(isinstance(n, ast.Name) and n.id == x for r in reads for n in ast.walk(r)):
+        return None
+    if any(isinstance(n, (ast.Yield, ast.YieldFrom, ast.Await, ast.NamedExpr, ast.Lambda)) for r in reads for n in ast.walk(r)):
+        return None
+    inside = sum(1 for n in ast.walk(s1) if isinstance(n, ast.Name) and n.id in tv)
+    total = sum(1 for n in ast.walk(fn) if isinstance(n, ast.Name) and n.id in tv)
+    if inside != total:
+        return None
+    comp = ast.ListComp(elt=E, generators=[ast.comprehension(target=s1.target, iter=s1.iter, ifs=ifs, is_async=0)])
+    return ast.copy_location(ast.Assign(targets=[s0.targets[0]], value=ast.copy_location(comp, s1)), s0)
 
 
 def normalize(tree):
